@@ -786,3 +786,86 @@ def _struct_same(v, o):
     if type(v) in (int, str, bool, float, type(None)) and type(o) == type(v):
         return v == o or (v != v and o != o)
     return False
+
+
+# ----------------------------------------------------------------------------- constructor specs (C20)
+
+
+@spec
+def forall2(ex, R, C, f):
+    i, j = z3.Int(ex.p.fresh_name("fr")), z3.Int(ex.p.fresh_name("fc"))
+    body = zbool(ex.truth(_call(ex, f, Sym(i, "int"), Sym(j, "int"))))
+    return mk_bool(z3.ForAll([i, j], z3.Implies(z3.And(i >= 0, i < term(R, "int"), j >= 0, j < term(C, "int")), body)))
+
+
+@spec
+def is_finite(ex, v):
+    if isinstance(v, float):
+        return not ops.special_float(v)
+    return True
+
+
+@spec
+def iv_count_ok(ex, iv, rows, columns):
+    """the initial volumes are absent, a scalar, or exactly rows*columns values"""
+    if iv is None or num_kind(iv) or isinstance(iv, lib.Arr0V):
+        return True
+    if isinstance(iv, SeqV):
+        n = ops.seq_len(iv)
+        return ops.compare(ex, "==", n if isinstance(n, int) else Sym(n, "int"), ops.binop(ex, "*", rows, columns))
+    if isinstance(iv, Arr2V):
+        return ops.compare(ex, "==", ops.binop(ex, "*", lib._symint(iv.rows), lib._symint(iv.cols)), ops.binop(ex, "*", rows, columns))
+    return False
+
+
+@spec
+def init_vols(ex, iv, rows, columns):
+    """the initial volumes as a rows x columns grid: 0 if absent, a scalar broadcast, otherwise the values in row-major order"""
+    R = rows if isinstance(rows, int) else term(rows, "int")
+    Cn = columns if isinstance(columns, int) else term(columns, "int")
+    if iv is None:
+        return Arr2V(R, Cn, lambda r, c: 0)
+    if isinstance(iv, lib.Arr0V):
+        iv = iv.v
+    if num_kind(iv) or isinstance(iv, float):
+        return Arr2V(R, Cn, lambda r, c: iv)
+    if isinstance(iv, SeqV):
+        src = iv.copy()
+        return Arr2V(R, Cn, lambda r, c: ops.seq_get(ex, src, mk_num(term(r, "int") * term(columns, "int") + term(c, "int"), "int")))
+    if isinstance(iv, Arr2V) and ops._same_dim(ex, R, iv.rows) and ops._same_dim(ex, Cn, iv.cols):
+        return iv.copy()
+    if isinstance(iv, Arr2V):
+        flat = lib.flatten(ex, iv, "C")
+        return Arr2V(R, Cn, lambda r, c: ops.seq_get(ex, flat, mk_num(term(r, "int") * term(columns, "int") + term(c, "int"), "int")))
+    raise Unsupported("init_vols of this value")
+
+
+_INITCOMP = {}
+
+
+@spec
+def initial_composition(ex, name, real_wells, component_names, initial_volumes):
+    """(opaque here) the composition dictionary of get_initial_composition - specified by its own contract (C05)"""
+    from .values import Obj
+
+    return Obj("InitialComposition", {"args": (name, real_wells, component_names, initial_volumes)})
+
+
+@spec
+def bad_component_names(ex, real_wells, component_names, initial_volumes):
+    """names given for unknown or empty wells"""
+    from .values import MapV
+
+    if component_names is None or (isinstance(component_names, MapV) and component_names.is_concrete() and not component_names.items):
+        return False
+    raise Unsupported("component_names other than None/{} in this contract")
+
+
+@spec
+def shape_is(ex, a, rows, columns):
+    return ops.and_(ex, ops.compare(ex, "==", lib._symint(a.rows), rows), ops.compare(ex, "==", lib._symint(a.cols), columns))
+
+
+@spec
+def is_arraylike(ex, v):
+    return isinstance(v, (SeqV, Arr2V))
